@@ -615,13 +615,12 @@ impl<B> Call<RecvResponse, B> {
     ///
     /// Returns `None` if there is no body such as the response to a `HEAD` request.
     pub fn into_body(self) -> Result<Option<Call<RecvBody, B>>, Error> {
-        let rbm = match &self.state.reader {
-            Some(v) => v,
-            None => return Err(Error::IncompleteResponse),
-        };
+        if self.state.reader.is_none() {
+            return Err(Error::IncompleteResponse);
+        }
 
-        // No body is expected either due to Method or status. Call ends here.
-        if matches!(rbm, BodyReader::NoBody) {
+        // No body is expected either due to Method or status, or its length is zero. Call ends here.
+        if !self.state.need_response_body() {
             return Ok(None);
         }
 
